@@ -240,6 +240,10 @@ func writeCompoundOpInfix(w io.Writer, c Compound, opts *WriteOptions, env *Env,
 
 func writeCompoundFunctionalNotation(w io.Writer, c Compound, opts *WriteOptions, env *Env) error {
 	ew := errWriter{w: w}
+	if opts.left != (operator{}) && opts.ops.defined(c.Functor()) {
+		_, _ = fmt.Fprint(&ew, " ") // The functor is never bracketed. So, we need a space to separate it from the operator on the left.
+		opts = opts.withLeft(operator{})
+	}
 	opts = opts.withRight(operator{})
 	_ = c.Functor().WriteTerm(&ew, opts, env)
 	_, _ = fmt.Fprint(&ew, "(")
